@@ -373,8 +373,11 @@ class _Ctx:
         for ev in pend:
             sums = ev.data.pop('_pending_raises')
             neg_all = []
+            multi = len(ev.data.get('targets', [])) > 1 and ev.data.get('via') in ('method', 'byname')
             for rs, cond in sums:
                 d = self.decide(cont, cond) if self.opts.prune else None
+                if multi and d is True:
+                    d = None        # one of several possible (overriding) targets raises: the call may still return
                 if d is False:
                     continue
                 r = cont.fork()
@@ -388,7 +391,8 @@ class _Ctx:
                 r.events.append(rev)
                 r.status = 'raise'
                 out.append(r)
-                neg_all.append(f_not(cond))
+                if not multi:
+                    neg_all.append(f_not(cond))
                 if d is True:
                     cont = None
                     break
